@@ -6,6 +6,7 @@ sys.path.insert(0, os.path.join(os.path.dirname(os.path.abspath(__file__)), 'too
 import layout
 import vec
 import cmp as cmpu
+import conv
 
 AAP = 'cntgs::detail::AllocatorAwarePointer<.*>::'
 AAP_UNITS = [
@@ -71,6 +72,10 @@ PROPERTY_META = {
                 text='Contracts on the real reference operators >, <=, >= state them in terms of the real operator< (a > b == b < a, a <= b == !(b < a), a >= b == !(a < b)); irreflexivity, asymmetry and a < b => a != b are checked on the real operator< / operator== for symbolic element contents including padding.',
                 note='Bounded as C13. Transitivity and the vector-level lexicographical comparison are not under contract.',
                 design_ref='DESIGN.md 6 C14'),
+    'C15': dict(claimed=True, level='model_checking',
+                text='The real cntgs::detail::uninitialized_construct (the single funnel of every FixedSize/VaryingSize store) is verified per stored type x source value type x source form (pointer, std::array lvalue and rvalue, C array, non-contiguous generated iterator, aliasing-safe path) against: stored item k == StoredType(source item k) evaluated in C on the scalar types for an arbitrary witness k, returned end == target + n items, and an assigns clause that contains only the target items (sources unmodified). emplace_at is proved (unbounded) to pass its arguments to these stores at the right addresses.',
+                note='Bounded: at most 4 items per span (copy loops unwound with unwinding assertions); the memcpy branch is covered by the copy model that is exact at the witness item. Class types with converting constructors, std::list and move_iterator sources are not under contract; conversions that are undefined in C++ (float out of range) are excluded by precondition.',
+                design_ref='DESIGN.md 6 C15'),
     'C18': dict(claimed=True, level='model_checking',
                 text='The pre-states of all vector-level contracts include never-filled vectors (address table content arbitrary), emptied vectors and capacity 0; size/empty/data_begin/data_end/clear/erase/reserve/swap/constructor contracts are discharged on them with all pointer checks on, so no result depends on an uninitialised table slot.',
                 note='Default-constructed vectors (null table) are not yet covered.' + VEC_NOTE, design_ref='DESIGN.md 6 C18'),
@@ -114,6 +119,13 @@ def units(tier, seed=0):
             us.append(dict(id='lay.%s.%s' % (L.tag, name), tu='lay_' + L.tag, gen=cxx, template_text=txt, vars={}, entry=h,
                            enforce='@F{%s}' % layout.RX[key], replace=[], props=props, layer='elementTraits.hpp/parameterTraits.hpp',
                            kind='proof', config='layout: ' + spec))
+    for T, U in conv.PAIRS[tier]:
+        cxx = conv.cxx_tu(T, U)
+        for form in conv.FORMS:
+            loops = form in ('generator',) or not _memcpy_compatible(T, U) or form == 'ptr_aliased'
+            us.append(dict(id='conv.%s_from_%s.%s' % (T, U, form), tu='conv_%s_%s' % (T, U), gen=cxx, template_text=conv.c_unit(T, U, form), vars={},
+                           entry='h_uc', enforce='@F{%s}' % conv.FORMS[form][0], replace=[], props=['C15'], layer='memory.hpp/typeTraits.hpp',
+                           kind='bounded(items <= 4, copy loop unwound)', unwind=6, cdefs=['VF_WINDOWS=1'], config='conversion: %s <- %s, %s' % (T, U, form)))
     for spec in cmpu.CMP_LISTS[tier]:
         txt, L = cmpu.c_unit(spec)
         cxx = cmpu.cxx_tu(spec)
@@ -155,6 +167,10 @@ def units(tier, seed=0):
 # (capacity, block bytes) of the target and of the source operand: target smaller and target larger than the source
 VEC_SHAPES2 = {'quick': [(2, 32, 3, 64), (3, 64, 2, 32)], 'thorough': [(2, 32, 3, 64), (3, 64, 2, 32), (0, 0, 3, 64), (3, 64, 0, 0), (3, 64, 3, 64)]}
 VEC_SHAPES = {'quick': [(3, 64)], 'thorough': [(0, 0), (1, 32), (3, 64), (4, 96)]}
+
+
+def _memcpy_compatible(T, U):
+    return False
 
 
 def vec_catalogue(tier):
